@@ -20,12 +20,27 @@ Three clauses are false of the tree and carry a Lean counter-witness + `_partial
 `split_independent` (interior blank line at a segment boundary), `ttl_end_refetch` (a second
 client on the same cache directory adopts the file without expiry), `fails_only_if_protocol_fails`
 (a second client's stale index entry turns a deleted file into a cache error).
+
+Extension (second half of the file):
+* `CdnClient::download` (Model/CdnDownload, sharing the `ProtocolCache` model with `query`, retry
+  loop imported from C14): `download_*`, `cdn_*` theorems over joint histories of queries,
+  downloads and file corruption.
+* the `reqwest::Error` predicates `should_retry` asks (`http_class_exact`).
+* "malformed" defined by the real parser model (Model/VersionWire on top of C15's Model/Bpsv and
+  Model/RibbitFmt): `*_wire` theorems; the old flag-based theorems stay and are their corollaries'
+  source.
 -/
 import Cascette.Proofs.Fallback
 import Cascette.Proofs.TcpRead
+import Cascette.Proofs.CdnDownload
+import Cascette.Model.VersionWire
 namespace Cascette.Props.C13
 open Cascette.Model.Fallback Cascette.Spec.Fallback Cascette.Proofs.Fallback
 open Cascette.Model.TcpRead Cascette.Proofs.TcpRead
+open Cascette.Model.CdnDownload Cascette.Proofs.CdnDownload
+open Cascette.Model.VersionWire
+open Cascette.Model.Retry (Arith Outcome Result execute defaultPolicy classifyStatus)
+open Cascette.Proofs.Retry (Retryable)
 
 deriving instance DecidableEq for Except
 
@@ -515,6 +530,439 @@ theorem endpoint_classes (t : Ttls) :
   · simp only [classifyEp]; decide
   · simp only [classifyEp]; decide
 
+
+/-! ## Extension 1 — `CdnClient::download`: cache, then fetch, then store -/
+
+section cdn
+variable {κ : Type} [DecidableEq κ]
+
+/-- `download_cached_no_traffic`. After a download by client `c` that went to the network and
+succeeded with `v` (looked up at `t0`, stored at `tS ≥ t0` after any retries), and whatever
+happens in between — version-service queries and downloads on other keys by anybody, on this key
+by other clients (old or newly created) at any time, on this key by `c` before `tS + ttl`,
+corruption of other files — a download of the object by `c` at any `t1 < tS + ttl` returns `v`
+and sends no request, whatever the network would answer. (`hoth` as in `cache_hit_no_traffic`.) -/
+theorem download_cached_no_traffic (cfg : Config) (A : Arith) (jit : Nat → Nat → Nat) (junk : Nat)
+    (st st1 : CState κ Nat) (c t0 tS : Nat) (ob : Obj κ) (outs : List Outcome) (n v : Nat)
+    (hq : download A jit junk st c t0 tS ob outs = (st1, n, .ok v)) (hnet : n ≠ 0)
+    (hoth : ∀ c', c' ≠ c → alookup st.idx (c', ob.key) = none ∨ alookup st.idx (c', ob.key) = some none)
+    (ops : List (DOp κ)) (hquiet : ∀ op ∈ ops, DQuiet c ob.key (tS + ob.ttl) op)
+    (t1 tS' : Nat) (ht : t1 < tS + ob.ttl) (ob' : Obj κ) (hk : ob'.key = ob.key) (hv : ob'.keyOk = true)
+    (outs' : List Outcome) :
+    (download A jit junk (drun cfg A jit junk st1 ops) c t1 tS' ob' outs').2 = (0, .ok v) := by
+  have h0 := holds_after_download A jit junk st st1 c t0 tS ob outs n v hq hnet hoth
+  have h1 := holds_drun cfg A jit junk c ob.key v (tS + ob.ttl) ops st1 h0 hquiet
+  exact (holds_download A jit junk _ c c ob.key v _ t1 tS' ob' outs' h1 (Or.inr (Or.inr ht))).2 hk hv (Or.inl rfl)
+
+/-- with a cache directory ANY other client on the directory (in particular a newly created one)
+is served the stored object without a request as well. -/
+theorem download_cached_other_client_disk (cfg : Config) (A : Arith) (jit : Nat → Nat → Nat) (junk : Nat)
+    (st st1 : CState κ Nat) (c t0 tS : Nat) (ob : Obj κ) (outs : List Outcome) (n v : Nat)
+    (hq : download A jit junk st c t0 tS ob outs = (st1, n, .ok v)) (hnet : n ≠ 0)
+    (hoth : ∀ c', c' ≠ c → alookup st.idx (c', ob.key) = none ∨ alookup st.idx (c', ob.key) = some none)
+    (ops : List (DOp κ)) (hquiet : ∀ op ∈ ops, DQuiet c ob.key (tS + ob.ttl) op)
+    (hdisk : (drun cfg A jit junk st1 ops).disk = true)
+    (c' t1 tS' : Nat) (hc : c' ≠ c) (ob' : Obj κ) (hk : ob'.key = ob.key) (hv : ob'.keyOk = true)
+    (outs' : List Outcome) :
+    (download A jit junk (drun cfg A jit junk st1 ops) c' t1 tS' ob' outs').2 = (0, .ok v) := by
+  have h0 := holds_after_download A jit junk st st1 c t0 tS ob outs n v hq hnet hoth
+  have h1 := holds_drun cfg A jit junk c ob.key v (tS + ob.ttl) ops st1 h0 hquiet
+  exact (holds_download A jit junk _ c c' ob.key v _ t1 tS' ob' outs' h1 (Or.inr (Or.inl hc))).2 hk hv (Or.inr hdisk)
+
+/-- the same for a version-service answer: a download history in between does not disturb
+`cache_hit_no_traffic` (joint histories; documents identified by naturals). -/
+theorem cache_hit_no_traffic_joint (cfg : Config) (A : Arith) (jit : Nat → Nat → Nat) (junk : Nat)
+    (st st1 : CState κ Nat) (c t0 : Nat) (ep : Ep κ) (o : Tr → Except Err Nat) (tr : List Tr) (d : Nat)
+    (hq : query cfg st c t0 ep o = (st1, tr, .ok d)) (hnet : tr ≠ [])
+    (hoth : ∀ c', c' ≠ c → alookup st.idx (c', ep.key) = none ∨ alookup st.idx (c', ep.key) = some none)
+    (ops : List (DOp κ)) (hquiet : ∀ op ∈ ops, DQuiet c ep.key (t0 + ep.ttl) op)
+    (t1 : Nat) (ht : t1 < t0 + ep.ttl) (ep' : Ep κ) (hk : ep'.key = ep.key) (hv : ep'.valid = true)
+    (o' : Tr → Except Err Nat) :
+    (query cfg (drun cfg A jit junk st1 ops) c t1 ep' o').2 = ([], .ok d) := by
+  have h0 := holds_after_store cfg st st1 c t0 ep o tr d hq hnet hoth
+  have h1 := holds_drun cfg A jit junk c ep.key d (t0 + ep.ttl) ops st1 h0 hquiet
+  exact (holds_query cfg _ c c ep.key d _ t1 ep' o' h1 (Or.inr (Or.inr ht))).2 hk hv (Or.inl rfl)
+
+/-- `download_ttl_end`: at or after `tS + ttl` the client that stored the object goes back to the
+network: the requests sent are those of the retry loop on what the network answers now. (For
+another client on the directory the finding `cache-ttl-lost-new-client` applies unchanged: same
+`cacheGet`.) -/
+theorem download_ttl_end_refetch_partial (cfg : Config) (A : Arith) (jit : Nat → Nat → Nat) (junk : Nat)
+    (st st1 : CState κ Nat) (c t0 tS : Nat) (ob : Obj κ) (outs : List Outcome) (n v : Nat)
+    (hq : download A jit junk st c t0 tS ob outs = (st1, n, .ok v)) (hnet : n ≠ 0)
+    (hoth : ∀ c', c' ≠ c → alookup st.idx (c', ob.key) = none ∨ alookup st.idx (c', ob.key) = some none)
+    (ops : List (DOp κ)) (hquiet : ∀ op ∈ ops, DQuiet c ob.key (tS + ob.ttl) op)
+    (t1 tS' : Nat) (ht : tS + ob.ttl ≤ t1) (ob' : Obj κ) (hk : ob'.key = ob.key) (hv : ob'.keyOk = true)
+    (outs' : List Outcome) :
+    (download A jit junk (drun cfg A jit junk st1 ops) c t1 tS' ob' outs').2.1 =
+      (execute A defaultPolicy jit outs').calls := by
+  have h0 := holds_after_download A jit junk st st1 c t0 tS ob outs n v hq hnet hoth
+  have h1 := holds_drun cfg A jit junk c ob.key v (tS + ob.ttl) ops st1 h0 hquiet
+  have hg := holds_get_expired _ c ob.key v _ t1 h1 ht
+  rcases download_exits A jit junk (drun cfg A jit junk st1 ops) c t1 tS' ob' outs' with
+    ⟨hv', _⟩ | ⟨_, e', he, _⟩ | ⟨_, d', hd', _⟩ | ⟨_, hj, _⟩ | ⟨_, _, ⟨v', _, hx⟩ | ⟨_, hx⟩⟩
+  · rw [hv] at hv'; cases hv'
+  · rw [hk, hg] at he; cases he
+  · rw [hk, hg] at hd'; cases hd'
+  · rw [hk, hg] at hj; cases hj
+  · rw [hx]
+  · rw [hx]
+
+/-- `download_failed_never_stored`: a download that does not return bytes leaves in the cache
+(files of the directory, memory entries of every client) only blobs that were there before. -/
+theorem download_failed_never_stored (A : Arith) (jit : Nat → Nat → Nat) (junk : Nat)
+    (st st1 : CState κ Nat) (c now tS : Nat) (ob : Obj κ) (outs : List Outcome) (n : Nat) (r : Result)
+    (hq : download A jit junk st c now tS ob outs = (st1, n, r)) (hr : ∀ v, r ≠ .ok v) :
+    (∀ k b, alookup st1.files k = some b → alookup st.files k = some b) ∧
+    (∀ ck x, alookup st1.mem ck = some x → alookup st.mem ck = some x) := by
+  have hg := cacheGet_no_new st c ob.key now
+  rcases download_exits A jit junk st c now tS ob outs with ⟨_, hx⟩ | ⟨_, e', _, hx⟩ |
+    ⟨_, d', _, hx⟩ | ⟨_, _, hx⟩ | ⟨_, _, ⟨v, _, hx⟩ | ⟨_, hx⟩⟩
+  all_goals rw [hx] at hq
+  all_goals simp only [Prod.mk.injEq] at hq
+  · rw [← hq.1]; exact ⟨fun _ _ h => h, fun _ _ h => h⟩
+  · rw [← hq.1]; exact hg
+  · exact absurd hq.2.2.symm (hr d')
+  · exact absurd hq.2.2.symm (hr junk)
+  · exact absurd hq.2.2.symm (hr v)
+  · rw [← hq.1]; exact hg
+
+/-- `download_non2xx_never_stored`: when every request of the call ends in a transport failure or
+a non-2xx response, the call does not return bytes unless they were cached before, the cache
+state is the one the lookup left, and (by the theorem above) nothing new is in it. -/
+theorem download_non2xx_never_stored (A : Arith) (jit : Nat → Nat → Nat) (junk : Nat)
+    (st : CState κ Nat) (c now tS : Nat) (ob : Obj κ) (outs : List Outcome)
+    (hbad : ∀ o ∈ outs, (∃ e, o = .err e) ∨
+      ∃ status ra k, ¬ (200 ≤ status ∧ status < 300) ∧ o = classifyStatus status ra k)
+    (hmiss : (cacheGet st c ob.key now).2 = .ok none) (hv : ob.keyOk = true) :
+    download A jit junk st c now tS ob outs =
+      ((cacheGet st c ob.key now).1, (execute A defaultPolicy jit outs).calls,
+        (execute A defaultPolicy jit outs).result) ∧
+    ∀ v, (execute A defaultPolicy jit outs).result ≠ .ok v := by
+  have hno : ∀ v, (execute A defaultPolicy jit outs).result ≠ .ok v := by
+    intro v hv'
+    obtain ⟨pre, post, ho, _, _⟩ := execute_ok_decomp A defaultPolicy jit outs v hv'
+    have hmem : Outcome.ok v ∈ outs := by rw [ho]; simp
+    rcases hbad _ hmem with ⟨e, he⟩ | ⟨status, ra, k, h2, he⟩
+    · cases he
+    · obtain ⟨e, he', _⟩ := Cascette.Proofs.Retry.classify_retry_iff status ra k h2
+      rw [he'] at he; cases he
+  refine ⟨?_, hno⟩
+  rcases download_exits A jit junk st c now tS ob outs with ⟨hv', _⟩ | ⟨_, e', he, _⟩ |
+    ⟨_, d', hd', _⟩ | ⟨_, hj, _⟩ | ⟨_, _, ⟨v, hok, _⟩ | ⟨_, hx⟩⟩
+  · rw [hv] at hv'; cases hv'
+  · rw [hmiss] at he; cases he
+  · rw [hmiss] at hd'; cases hd'
+  · rw [hmiss] at hj; cases hj
+  · exact absurd hok (hno v)
+  · exact hx
+
+/-- `download_stores_what_was_fetched`: a download that used the network and returned `v` sent
+exactly the requests up to the first success of the script, every earlier one having failed
+retryably; `v` is the body of that response; and from then until `tS + ttl` the client's cache
+answers the object's key with exactly `v`. -/
+theorem download_stores_what_was_fetched (A : Arith) (jit : Nat → Nat → Nat) (junk : Nat)
+    (st st1 : CState κ Nat) (c now tS : Nat) (ob : Obj κ) (outs : List Outcome) (n v : Nat)
+    (hq : download A jit junk st c now tS ob outs = (st1, n, .ok v)) (hnet : n ≠ 0)
+    (hoth : ∀ c', c' ≠ c → alookup st.idx (c', ob.key) = none ∨ alookup st.idx (c', ob.key) = some none) :
+    (∃ pre post, outs = pre ++ .ok v :: post ∧ (∀ o ∈ pre, Retryable o) ∧ n = pre.length + 1) ∧
+    ∀ t1, t1 < tS + ob.ttl → cacheGet st1 c ob.key t1 = (st1, .ok (some (.doc v))) := by
+  refine ⟨?_, fun t1 ht => holds_get_self st1 c ob.key v _ t1
+    (holds_after_download A jit junk st st1 c now tS ob outs n v hq hnet hoth) ht⟩
+  rcases download_exits A jit junk st c now tS ob outs with ⟨_, hx⟩ | ⟨_, e', _, hx⟩ |
+    ⟨_, d', _, hx⟩ | ⟨_, _, hx⟩ | ⟨_, _, ⟨v', hok, hx⟩ | ⟨hno, hx⟩⟩
+  all_goals rw [hx] at hq
+  all_goals simp only [Prod.mk.injEq] at hq
+  · exact absurd hq.2.1.symm hnet
+  · exact absurd hq.2.1.symm hnet
+  · exact absurd hq.2.1.symm hnet
+  · exact absurd hq.2.1.symm hnet
+  · obtain ⟨_, h2, h3⟩ := hq
+    simp only [Result.ok.injEq] at h3; subst h3
+    obtain ⟨pre, post, ho, hp, hc⟩ := execute_ok_decomp A defaultPolicy jit outs v' hok
+    exact ⟨pre, post, ho, hp, by rw [← h2]; exact hc⟩
+  · exact absurd hq.2.2 (hno v)
+
+/-- what `download` returns was in the cache (a blob or an outside writer's junk) or is the body
+of a successful response of this call. -/
+theorem download_returns_cached_or_fetched (A : Arith) (jit : Nat → Nat → Nat) (junk : Nat)
+    (st : CState κ Nat) (c now tS : Nat) (ob : Obj κ) (outs : List Outcome) (v : Nat)
+    (hq : (download A jit junk st c now tS ob outs).2.2 = .ok v) :
+    (alookup st.files ob.key = some (.doc v) ∨ ∃ e, alookup st.mem (c, ob.key) = some (.doc v, e)) ∨
+    v = junk ∨ Outcome.ok v ∈ outs := by
+  rcases download_exits A jit junk st c now tS ob outs with ⟨_, hx⟩ | ⟨_, e', _, hx⟩ |
+    ⟨_, d', hd', hx⟩ | ⟨_, _, hx⟩ | ⟨_, _, ⟨v', hok, hx⟩ | ⟨hno, hx⟩⟩
+  all_goals rw [hx] at hq
+  all_goals simp only at hq
+  · cases hq
+  · cases hq
+  · cases hq; exact Or.inl (cacheGet_hit_in st c ob.key now v hd')
+  · cases hq; exact Or.inr (Or.inl rfl)
+  · cases hq
+    obtain ⟨pre, post, ho, _, _⟩ := execute_ok_decomp A defaultPolicy jit outs v hok
+    exact Or.inr (Or.inr (by rw [ho]; simp))
+  · exact absurd hq (hno v)
+
+/-- `only_fetched_bodies_cached`, over all joint histories: if every content in the initial cache
+satisfies `P`, and so does every document a version-service transport returns as a success and
+every body of a successful CDN response, then after any history every cached content does. -/
+theorem only_fetched_bodies_cached (P : Nat → Prop) (cfg : Config) (A : Arith) (jit : Nat → Nat → Nat)
+    (junk : Nat) :
+    ∀ (ops : List (DOp κ)) (st : CState κ Nat), AllDocs P st →
+      (∀ op ∈ ops, match op with
+        | .query _ _ _ o => ∀ t d, o t = .ok d → P d
+        | .corrupt _ => True
+        | .download _ _ _ _ outs => ∀ v, Outcome.ok v ∈ outs → P v) →
+      AllDocs P (drun cfg A jit junk st ops) := by
+  intro ops
+  induction ops with
+  | nil => intro st h _; exact h
+  | cons op rest ih =>
+    intro st h hops
+    have hop := hops op (by simp)
+    have hstep : AllDocs P (dstep cfg A jit junk st op) := by
+      cases op with
+      | corrupt k => exact allDocs_corrupt P st k h
+      | download c now tS ob outs => exact allDocs_download P A jit junk st c now tS ob outs h hop
+      | query c now ep o =>
+        have := only_good_answers_cached P cfg [Op.query c now ep o] st h
+          (by intro op' hop'; simp only [List.mem_singleton] at hop'; subst hop'; exact hop)
+        simpa [run, step, dstep] using this
+    simpa [drun] using ih (dstep cfg A jit junk st op) hstep (fun x hx => hops x (by simp [hx]))
+
+end cdn
+
+/-- the TTL `store_bytes` gives a CDN object is the CDN TTL, for every path, content type and key
+(after fix 92464f6) … -/
+theorem cdn_object_ttl (t : CdnTtls) (path : List Nat) (ct : Ct) (key : List Nat) :
+    (classifyObj t path ct key).ttl = t.cdn := by
+  simp [classifyObj, ttlForKey, cacheKey, sRibbitColon, sCdnColon, sCdnSlash, List.isPrefixOf]
+
+/-- … whereas `get_ttl_for_key` of the pinned tree gave every CDN object the config TTL (the
+defect; replayed by corpus/C13/cdn-object-ttl.case, which must now pass). -/
+theorem cdn_object_ttl_pinned_was_config (t : CdnTtls) (path : List Nat) (ct : Ct) (key : List Nat) :
+    ttlForKeyPinned t (cacheKey path ct key) = t.config := by
+  simp [ttlForKeyPinned, cacheKey, sRibbitColon, sCdnColon, List.isPrefixOf]
+
+/-- CDN cache keys never collide with the keys of version-service answers (`api/ribbit/…`). -/
+theorem cdn_keys_disjoint_from_answers (path : List Nat) (ct : Ct) (key ep : List Nat) :
+    cacheKey path ct key ≠ [97,112,105,47,114,105,98,98,105,116,47] ++ ep := by
+  simp [cacheKey]
+
+theorem trimSlashes_snoc_slash (p : List Nat) : trimSlashes (p ++ [47]) = trimSlashes p := by
+  induction p with
+  | nil => simp [trimSlashes]
+  | cons c cs ih => simp [trimSlashes, ih]
+
+/-- `normalize_cdn_path`: a trailing slash on the endpoint path names the same cache entry and
+the same URL. -/
+theorem cdn_key_ignores_trailing_slash (path : List Nat) (ct : Ct) (key : List Nat) :
+    cacheKey (path ++ [47]) ct key = cacheKey path ct key ∧
+    urlPath (path ++ [47]) ct key = urlPath path ct key := by
+  simp [cacheKey, urlPath, objPath, trimSlashes_snoc_slash]
+
+theorem hexEncode_length (l : List Nat) : (hexEncode l).length = 2 * l.length := by
+  induction l with
+  | nil => rfl
+  | cons b bs ih => simp only [hexEncode, List.length_cons, ih]; omega
+
+/-- `check_key` is what makes the slices `hex_key[..2]`, `hex_key[2..4]` safe: an accepted key
+has at least four hex digits; a rejected one never reaches the cache or the network. -/
+theorem cdn_check_key_guards (t : CdnTtls) (path : List Nat) (ct : Ct) (key : List Nat) :
+    ((classifyObj t path ct key).keyOk = true → 4 ≤ (hexEncode key).length) ∧
+    ((classifyObj t path ct key).keyOk = false →
+      ∀ (A : Arith) (jit : Nat → Nat → Nat) (junk : Nat) (st : CState (List Nat) Nat) (c now tS : Nat)
+        (outs : List Outcome),
+        download A jit junk st c now tS (classifyObj t path ct key) outs = (st, 0, .err .invalidKey)) := by
+  constructor
+  · intro h
+    simp only [classifyObj, decide_eq_true_eq] at h
+    rw [hexEncode_length]; omega
+  · intro h A jit junk st c now tS outs
+    simp [download, h]
+
+/-! ## Extension 2 — the `reqwest::Error` predicates `should_retry` asks -/
+
+/-- `http_class_exact`: for every combination of the five predicates the code asks of a
+`reqwest::Error`, the class Model/Fallback keeps of it (`httpTimeout`/`httpConnect`/`httpDropped`/
+`httpOther`) has the same `should_retry` as the code's own disjunction: the four-class
+abstraction of the chain theorems loses nothing. -/
+theorem http_class_exact (f : HttpFlags) : shouldRetry f.toErr = f.shouldRetry := by
+  obtain ⟨t, c, r, b, d⟩ := f
+  cases t <;> cases c <;> cases r <;> cases b <;> cases d <;> rfl
+
+/-- a failed HTTP exchange lets the chain move on iff `reqwest` reports a timeout, a connect
+error, or a request/body/decode error; anything else (redirect policy, builder, …) ends it. -/
+theorem http_failure_transient_iff (f : HttpFlags) :
+    Transient (fun _ : Unit => httpAnswer (.fail f)) () ↔ f.shouldRetry = true := by
+  constructor
+  · rintro ⟨e, he, hr⟩
+    simp only [httpAnswer, Except.error.injEq] at he
+    rw [← he, http_class_exact] at hr; exact hr
+  · intro h
+    exact ⟨f.toErr, rfl, by rw [http_class_exact]; exact h⟩
+
+/-! ## Extension 3 — "malformed" is the real parser rejecting the bytes -/
+
+section wire
+variable (H : Model.Bpsv.Str → Model.Bpsv.Str)
+
+/-- a transport's outcome is a document iff the endpoint delivered a complete answer (HTTP: status
+200) that the BPSV / V1-MIME parser model reads as that document. -/
+theorem wire_ok_iff_wellformed (w : Wires) (t : Tr) (d : Model.Bpsv.Doc) :
+    w.outcome H t = .ok d ↔ WellFormed H w t d := by
+  have hhttp : ∀ x : HttpWire, httpAnswer x = .ok d ↔
+      ∃ text, x = .resp 200 (some text) ∧ Model.Bpsv.parse text = .ok d := by
+    intro x
+    constructor
+    · intro h
+      cases x with
+      | fail f => cases h
+      | resp s b =>
+        simp only [httpAnswer] at h
+        obtain ⟨rfl, hb⟩ := (tact_ok_iff s (parseBody b) d).1 h
+        cases b with
+        | none => cases hb
+        | some text =>
+          refine ⟨text, rfl, ?_⟩
+          simp only [parseBody] at hb
+          split at hb
+          · rename_i d' hd'; cases hb; exact hd'
+          · cases hb
+    · rintro ⟨text, rfl, hp⟩
+      simp [httpAnswer, parseBody, hp, tactClassify]
+  cases t with
+  | https => exact hhttp w.https
+  | http => exact hhttp w.http
+  | tcp =>
+    simp only [Wires.outcome, WellFormed]
+    constructor
+    · intro h
+      cases hw : w.tcp with
+      | fail s => rw [hw] at h; cases h
+      | bytes raw =>
+        rw [hw] at h
+        simp only [tcpAnswer] at h
+        split at h
+        · rename_i d' hd'; cases h; exact ⟨raw, rfl, hd'⟩
+        · cases h
+    · rintro ⟨raw, hw, hp⟩
+      simp [hw, tcpAnswer, hp]
+
+/-- `malformed_is_definitive_wire`: a complete answer the parser rejects is `Parse`, which is
+not retryable — on every transport. -/
+theorem malformed_is_definitive_wire (w : Wires) (t : Tr) (h : Malformed H w t) :
+    w.outcome H t = .error .parse ∧ shouldRetry .parse = false := by
+  refine ⟨?_, rfl⟩
+  have hhttp : ∀ x : HttpWire, MalformedHttp x → httpAnswer x = .error .parse := by
+    intro x hx
+    cases x with
+    | fail f => cases hx
+    | resp s b =>
+      obtain ⟨rfl, hb⟩ := hx
+      simp [httpAnswer, hb, tactClassify]
+  cases t with
+  | https => exact hhttp w.https h
+  | http => exact hhttp w.http h
+  | tcp =>
+    simp only [Malformed] at h
+    simp only [Wires.outcome]
+    cases hw : w.tcp with
+    | fail s => rw [hw] at h; cases h
+    | bytes raw =>
+      rw [hw] at h
+      obtain ⟨e, he⟩ := h
+      simp [tcpAnswer, he]
+
+/-- `malformed_never_cached`, restated on the parser model: when TACT HTTPS answers 200 with a
+body `BpsvDocument::parse` rejects (whatever the other two endpoints would deliver), the query
+(cold or junk cache entry, normal endpoint, HTTPS configured) contacts HTTPS only, fails with
+`Parse`, and leaves the cache as the lookup left it. -/
+theorem malformed_never_cached_wire {κ : Type} [DecidableEq κ] (cfg : Config) (st : CState κ Model.Bpsv.Doc)
+    (c now : Nat) (ep : Ep κ) (w : Wires) (hv : ep.valid = true) (htcp : ep.tcpOnly = false)
+    (hon : cfg.httpsOn = true) (hbad : MalformedHttp w.https)
+    (hmiss : (cacheGet st c ep.key now).2 = .ok none ∨ (cacheGet st c ep.key now).2 = .ok (some .junk)) :
+    queryW H cfg st c now ep w = ((cacheGet st c ep.key now).1, [Tr.https], .error .parse) := by
+  refine malformed_never_cached cfg st c now ep (w.outcome H) hv htcp hon ?_ hmiss
+  rw [(malformed_is_definitive_wire H w .https hbad).1]
+  simp [tactClassify]
+
+/-- wherever in the chain the malformed answer sits, and on TCP-only endpoints too: a query whose
+result is an error stores nothing; a query whose result is a document got it from the cache or
+from an endpoint whose answer the parser reads as exactly that document. -/
+theorem malformed_never_returned_wire {κ : Type} [DecidableEq κ] (cfg : Config) (st : CState κ Model.Bpsv.Doc)
+    (c now : Nat) (ep : Ep κ) (w : Wires) (d : Model.Bpsv.Doc)
+    (hq : (queryW H cfg st c now ep w).2.2 = .ok d) :
+    ((queryW H cfg st c now ep w).2.1 = [] ∧ (cacheGet st c ep.key now).2 = .ok (some (.doc d))) ∨
+    ∃ t, WellFormed H w t d ∧ ¬ Malformed H w t := by
+  unfold queryW at hq ⊢
+  rcases query_exits cfg st c now ep (w.outcome H) with ⟨_, hx⟩ | ⟨_, e', _, hx⟩ | ⟨_, d', hd', hx⟩ |
+      ⟨_, _, ⟨e', _, hx⟩ | ⟨d', hd', hx⟩⟩
+  all_goals rw [hx] at hq ⊢
+  all_goals simp only at hq
+  · cases hq
+  · cases hq
+  · cases hq; exact Or.inl ⟨rfl, hd'⟩
+  · cases hq
+  · cases hq
+    obtain ⟨t, ht⟩ := net_ok_from_transport cfg ep (w.outcome H) d hd'
+    refine Or.inr ⟨t, (wire_ok_iff_wellformed H w t d).1 ht, fun hm => ?_⟩
+    rw [(malformed_is_definitive_wire H w t hm).1] at ht; cases ht
+
+/-- a history step whose transports are what endpoints deliver. -/
+def IsWireOp {κ : Type} : Op κ Model.Bpsv.Doc → Prop
+  | .query _ _ _ o => ∃ w : Wires, o = w.outcome H
+  | .corrupt _ => True
+
+/-- the document is what the parser model makes of some text / some TCP response. -/
+def Parsed (d : Model.Bpsv.Doc) : Prop :=
+  (∃ text, Model.Bpsv.parse text = .ok d) ∨ (∃ raw, Model.Ribbit.clientTcp H raw = .ok d)
+
+/-- `only_parsed_answers_cached`, over all histories of wire-level queries and file corruption:
+every document in the cache is the parser's reading of bytes an endpoint delivered — never a
+failed, rejected or partially parsed answer. -/
+theorem only_parsed_answers_cached {κ : Type} [DecidableEq κ] (cfg : Config) (ops : List (Op κ Model.Bpsv.Doc))
+    (st : CState κ Model.Bpsv.Doc) (h0 : AllDocs (Parsed H) st) (hops : ∀ op ∈ ops, IsWireOp H op) :
+    AllDocs (Parsed H) (run cfg st ops) := by
+  refine only_good_answers_cached (Parsed H) cfg ops st h0 ?_
+  intro op hop
+  have := hops op hop
+  cases op with
+  | corrupt k => trivial
+  | query c now ep o =>
+    obtain ⟨w, rfl⟩ := this
+    intro t d hd
+    have hw := (wire_ok_iff_wellformed H w t d).1 hd
+    cases t with
+    | https => obtain ⟨text, _, hp⟩ := hw; exact Or.inl ⟨text, hp⟩
+    | http => obtain ⟨text, _, hp⟩ := hw; exact Or.inl ⟨text, hp⟩
+    | tcp => obtain ⟨raw, _, hp⟩ := hw; exact Or.inr ⟨raw, hp⟩
+
+end wire
+
+
+/-- the document the mock endpoints serve for id 7, and what is left of it when the connection
+closes at a row boundary. -/
+def docText7 : Model.Bpsv.Str := ['R','e','g','i','o','n','!','S','T','R','I','N','G',':','0','|','B','u','i','l','d','I','d','!','D','E','C',':','4','|','T','a','g','!','S','T','R','I','N','G',':','0','\n','#','#',' ','s','e','q','n',' ','=',' ','7','\n','u','s','|','7','|','a','\n','e','u','|','7','|','b','\n']
+def docText7Cut : Model.Bpsv.Str := ['R','e','g','i','o','n','!','S','T','R','I','N','G',':','0','|','B','u','i','l','d','I','d','!','D','E','C',':','4','|','T','a','g','!','S','T','R','I','N','G',':','0','\n','#','#',' ','s','e','q','n',' ','=',' ','7','\n','u','s','|','7','|','a','\n']
+
+set_option maxRecDepth 4000 in
+/-- finding `tcp-truncated-response-accepted`, now on the parser model instead of a case label:
+the Ribbit response cut at a row boundary is NOT malformed for `RibbitClient::query` — it is
+read as a document with one row instead of two (so by `only_parsed_answers_cached` it may be
+cached). Replayed on the real code by corpus/C13/tcp-truncated-at-row.case. -/
+theorem truncated_tcp_response_parses (H : Model.Bpsv.Str → Model.Bpsv.Str) :
+    (match tcpAnswer H (.bytes docText7) with | .ok d => d.rows.length == 2 && d.seqn == some 7 | _ => false) = true ∧
+    (match tcpAnswer H (.bytes docText7Cut) with | .ok d => d.rows.length == 1 && d.seqn == some 7 | _ => false) = true := by
+  have h1 : Model.Ribbit.isV1Mime docText7 = false := by decide
+  have h2 : Model.Ribbit.isV1Mime docText7Cut = false := by decide
+  have h3 : (match Model.Bpsv.parse docText7 with | .ok d => d.rows.length == 2 && d.seqn == some 7 | _ => false) = true := by decide
+  have h4 : (match Model.Bpsv.parse docText7Cut with | .ok d => d.rows.length == 1 && d.seqn == some 7 | _ => false) = true := by decide
+  simp only [tcpAnswer, Model.Ribbit.clientTcp, h1, h2, Model.Ribbit.liftParse, Bool.false_eq_true, if_false]
+  constructor
+  · revert h3; cases Model.Bpsv.parse docText7 <;> simp
+  · revert h4; cases Model.Bpsv.parse docText7Cut <;> simp
+
 /-! ### non-vacuity: the hypotheses are met by concrete, non-trivial instances -/
 
 /-- a run of `cache_hit_no_traffic`'s hypotheses: HTTPS 503, HTTP answers 7; stored; then a query
@@ -534,5 +982,40 @@ example : NoEarlyStop stopV2 [] [[97,33,68,10],[49,10,10]] := by
 
 example : Transient (fun (_ : Tr) => (.error (.serverError 502) : Except Err Nat)) .https :=
   ⟨_, rfl, by decide⟩
+
+/-- `download_*`: HTTP 500, then 200 with body 7 (stored at t=1, ttl 10); a hit at t=10 < 1+10
+without a request whatever the network holds; a refetch at t=11. -/
+example :
+    let ob : Obj Nat := { keyOk := true, key := 5, ttl := 10 }
+    let A := Arith.fixed (fun b => some (2 * b))
+    let r := download A (fun _ _ => 0) 99 (CState.empty true) 0 0 1 ob [.err (.serverError 500), .ok 7, .ok 8]
+    r.2 = (2, Result.ok 7) ∧
+    (download A (fun _ _ => 0) 99 r.1 0 10 10 ob [.ok 9]).2 = (0, Result.ok 7) ∧
+    (download A (fun _ _ => 0) 99 r.1 0 11 11 ob [.ok 9]).2 = (1, Result.ok 9) := by decide
+
+/-- `download_non2xx_never_stored`: a script of a dropped connection and a 404. -/
+example : ∀ o ∈ [Outcome.err (.http true), classifyStatus 404 none 3], (∃ e, o = .err e) ∨
+    ∃ status ra k, ¬ (200 ≤ status ∧ status < 300) ∧ o = classifyStatus status ra k := by
+  intro o ho
+  simp only [List.mem_cons, List.not_mem_nil, or_false] at ho
+  rcases ho with rfl | rfl
+  · exact Or.inl ⟨_, rfl⟩
+  · exact Or.inr ⟨404, none, 3, by decide, rfl⟩
+
+/-- `malformed_*_wire`: an HTML page with status 200 is malformed for the real parser model; the
+served document is well-formed. -/
+example : MalformedHttp (.resp 200 (some ['<','h','t','m','l','>','n','o','<','/','h','t','m','l','>','\n'])) := ⟨rfl, by decide⟩
+
+set_option maxRecDepth 4000 in
+example : ∃ d, WellFormed (fun x => x) ⟨.resp 200 (some docText7), .fail ⟨false, true, true, false, false⟩, .fail true⟩ .https d := by
+  cases h : Model.Bpsv.parse docText7 with
+  | ok d => exact ⟨d, docText7, rfl, h⟩
+  | error e =>
+    have : (match Model.Bpsv.parse docText7 with | .ok _ => true | .error _ => false) = true := by decide
+    rw [h] at this; cases this
+
+example : IsWireOp (fun x => x) (Op.query (κ := Nat) 0 0 ⟨0, true, false, 10⟩
+    (Wires.outcome (fun x => x) ⟨.resp 503 none, .fail ⟨true, false, true, false, false⟩, .bytes docText7⟩)) :=
+  ⟨_, rfl⟩
 
 end Cascette.Props.C13
